@@ -5,7 +5,7 @@ with the rounding and clamping of the portable kernels (C10, C18).
     src/convolution/u8x4/{sse4,avx2}.rs          vs  u8x4/native.rs
     src/convolution/u8x3/{sse4,avx2}.rs          vs  u8x3/native.rs
     src/convolution/u8x2/{sse4,avx2}.rs          vs  u8x2/native.rs
-    src/convolution/u8x1/{sse4,avx2}.rs          vs  u8x1/native.rs
+    (src/convolution/u8x1/{sse4,avx2}.rs: prepared, not enabled - see ENABLED_HORIZ)
 
 Method (docs/BUILDER_K9.md): Kani executes the REAL kernel text; the x86 instructions it cannot run are replaced (kani::stub)
 by the instruction models of contracts/simd_models.rs (assumed contract on the hardware, cross-checked on the host CPU by
@@ -26,7 +26,7 @@ import k7_kernels
 
 _HERE = os.path.dirname(os.path.abspath(__file__))
 MODEL_SRC = open(os.path.join(_HERE, "simd_models.rs")).read()
-MODELS = re.findall(r"^pub fn (mm(?:256)?_\w+)", MODEL_SRC, re.M)
+MODELS = re.findall(r"^\s*pub fn (mm(?:256)?_\w+)", MODEL_SRC, re.M)      # top-level (alpha) models and the K9 models of `pub mod k9` (re-exported)
 REPO = os.environ.get("FV_REPO", "/repo")
 
 SUPPORT = k7_kernels.SUPPORT
@@ -398,7 +398,9 @@ HORIZ = dict(
     # with a quarter of the rounding constant per accumulator lane).  Loads are whole pixels (16 / 8 / 4 / 2 bytes = 8 / 4 / 2 / 1 pixels).
     u8x2=dict(ty="U8x2", cc=2, sw=32, tf="", four_split_first=True,
               four=[(17, 15), (23, 9), (29, 3), (26, 6), (31, 1), HUGE32],
-              one=[(17, 15), (23, 9), (30, 2), (26, 6), (31, 1), HUGE32, (1, 31), (8, 24)],
+              one=[(17, 15), (23, 9), (30, 2), (26, 6), (31, 1), HUGE32],
+              # NOT covered: the >= 16-tap path of the AVX2 one-row kernel (16 / 8 tap stages, 1 << (precision - 3) per lane).  Measured: windows (1, 31 taps) + (8, 24 taps)
+              # in one harness: SSE4.1 passes after 1515 s (over the 1500 s limit), AVX2 no answer in 1500 s; a single 16-tap window: no answer in 14 min.
               one_per=1),
     # u8x1 (run-time precision): SSE4.1 8 taps per step, then ONE step of 4, then single taps in scalar code (<= 3); AVX2 16 per step, then ONE step of 8, then
     # single taps (<= 7); the lanes are summed horizontally (AVX2: 1/8 of the rounding constant per lane).  Loads of 16 / 8 / 4 bytes = pixels.
@@ -492,7 +494,11 @@ for _isa in ("sse4", "avx2"):
     _hs += _h
     _fns += _f
     _used |= set(_u)
-for _d in ("u8x4", "u8x3", "u8x2", "u8x1"):
+# u8x1 is prepared (HORIZ["u8x1"]) but NOT enabled: its kernels keep 4 (SSE4.1) / 8 (AVX2) partial sums per destination byte and add them horizontally at the end,
+# and SAT needs far longer to equate that with the sequential sum of the native kernel - measured: four_rows with windows of 15 + 23 taps, 3 + 31 taps: CBMC timeout at
+# 1500 s each; only the 1-tap / 2-tap group finished (80 s).  It needs one short window per harness (and probably a lemma-style decomposition) - not done.
+ENABLED_HORIZ = ("u8x4", "u8x3", "u8x2")
+for _d in ENABLED_HORIZ:
     for _isa in ("sse4", "avx2"):
         _m, _h, _f, _u = horiz_module(_d, _isa)
         _mods.append(_m)
@@ -510,3 +516,16 @@ UNITS = [dict(
                  "the source view is a test view with one allocation per row (the kernels are generic in the ImageView)"],
     kani=dict(functions=_fns, modules=_mods, harnesses=_hs),
 )]
+
+
+# --- tiers (set by the lead): a representative subset runs in the quick tier, the full list of 78 harnesses in the thorough tier ---------
+K9_QUICK = {
+    "k9_native_srai", "k9_native_lanes",
+    "k9_vertical_sse4_u8x3_w5", "k9_vertical_avx2_u8x3_w5", "k9_vertical_sse4_u8_w47_t1", "k9_vertical_avx2_u8_w47_t1",
+    "k9_u8x4_avx2_one_row_w0", "k9_u8x4_sse4_one_row_w1", "k9_u8x4_avx2_dispatch_h3",
+    "k9_u8x3_sse4_one_row_w2", "k9_u8x3_avx2_one_row_w2", "k9_u8x3_avx2_four_rows_w2",
+    "k9_u8x2_sse4_one_row_w2", "k9_u8x2_avx2_one_row_w1",
+}
+for _u in UNITS:
+    for _h in _u["kani"]["harnesses"]:
+        _h["tier"] = "quick" if _h["name"] in K9_QUICK else "thorough"
